@@ -56,6 +56,47 @@ fn strat(max_ops: usize) -> impl Strategy<Value = Case> {
 		.prop_map(|(spec, flow, snap_bits, crashes, recovery)| Case { spec, flow, snap_bits, crashes, recovery })
 }
 
+/// Crashes inside a two-sided update dance: a few non-dust payments are fully committed and become claimable,
+/// then a claim by one side and a new send by the other are started back to back (their messages queued, not
+/// delivered) and a generated tail delivers single messages, handles events, completes persistence and starts
+/// further claims / sends; the crashes fall inside that tail, with a generated manager-snapshot lag.
+fn crossing_strat() -> impl Strategy<Value = Case> {
+	let tail_w = OpWeights { send: 10, claim: 10, fail: 2, deliver: 60, events: 18, forwards: 8, async_toggle: 4, complete: 8, ..OpWeights::zero() };
+	let nondust = || (20u16..30000).prop_map(Amt::Frac);
+	(
+		world_spec(vec![Topology::Pair, Topology::Pair, Topology::Line3]),
+		proptest::collection::vec((any::<u16>(), nondust()), 1..4),
+		proptest::collection::vec(prop_oneof![any::<u16>().prop_map(|pay| Op::Claim { pay }), (any::<u16>(), nondust()).prop_map(|(route, amt)| Op::Send { route, amt })], 2..5),
+		proptest::collection::vec(op_strategy(tail_w), 8..28),
+		prop_oneof![Just(0.15f64), Just(0.4), Just(0.7)].prop_flat_map(|p| proptest::collection::vec(proptest::bool::weighted(p), 7)),
+		proptest::collection::vec((any::<u16>(), any::<u16>(), 0u16..7, any::<bool>()), 1..3),
+		proptest::collection::vec(op_strategy(recovery_weights()), 0..10),
+	)
+		.prop_map(|(spec, pre, starts, tail, snap_bits, crashes, recovery)| {
+			let mut flow: Vec<Op> = pre.into_iter().map(|(route, amt)| Op::Send { route, amt }).collect();
+			flow.push(Op::Pump);
+			flow.push(Op::Pump);
+			let head = flow.len();
+			flow.extend(starts);
+			flow.extend(tail);
+			let len = flow.len();
+			// crash positions inside the part after the committed prefix
+			let crashes = crashes
+				.into_iter()
+				.map(|(pos, node, lag, landed)| {
+					let at = head + 1 + pick(pos, len - head);
+					let after = ((((at as u32) << 16) / (len as u32 + 1)) + 1).min(65535) as u16;
+					// `Sim::restart` maps snap with pick(snap, k) onto the k snapshots kept (0 = newest): aim at `lag`
+					// snapshots back assuming about one snapshot per two operations
+					let k = (at / 2 + 2) as u32;
+					let snap = (((lag as u32).min(k - 1) << 16) / k + 1).min(65535) as u16;
+					Crash { after, node, snap, landed }
+				})
+				.collect();
+			Case { spec, flow, snap_bits, crashes, recovery }
+		})
+}
+
 fn oracle(c: &Case, ctx: &mut Ctx) -> CaseResult {
 	let mut sim = c.spec.build(false);
 	let r = oracle_inner(c, ctx, &mut sim);
@@ -231,11 +272,22 @@ fn main() {
 		PartSpec {
 			name: "restart-sampled",
 			rule: "pair / line / diamond worlds, generated payment flows with async persistence; manager snapshots at generated persistence points; 1-2 crashes at generated positions (second possibly during recovery) restarting a generated node from a generated snapshot lag and durable-or-landed monitors; then reconnect, resolve payments, mine to full resolution. Checked: deserialization succeeds, monitor-ahead channels are closed as OutdatedChannelManager and not resumed, revocation rules hold across restarts, every broadcast is consensus-valid, PaymentSent is truthful and never contradicted, a claim acknowledged to the recipient reaches PaymentSent at the sender. Non-trivial: HTLCs pending at the crash and the manager lagged a monitor or an async write was lost",
-			quick_cases: 1500,
+			quick_cases: 800,
 			thorough_cases: 60_000,
 			max_shrink: 300,
 		},
 		|| strat(60),
+		oracle,
+	);
+	c.part_with(
+		PartSpec {
+			name: "restart-crossing",
+			rule: "as restart-sampled, but the flow is built to crash inside concurrent updates: 1-3 non-dust payments fully committed, then claims and new sends started back to back with their messages still queued, then a generated tail of single-message deliveries / event handling / persistence completions; 1-2 crashes inside the tail with a manager snapshot lagging 0-6 snapshots. Non-trivial as in restart-sampled",
+			quick_cases: 1000,
+			thorough_cases: 50_000,
+			max_shrink: 300,
+		},
+		crossing_strat,
 		oracle,
 	);
 	let flows = if c.tier() == Tier::Thorough { 300 } else { 3 };
